@@ -54,9 +54,11 @@ func (f *Last) Call(s *slip.Scope, args slip.List, depth int) (result slip.Objec
 	case slip.List:
 		n := 1
 		if 1 < len(args) {
-			if i, ok := args[1].(slip.Integer); ok && 0 <= n {
+			i, ok := args[1].(slip.Integer)
+			if ok {
 				n = int(i.Int64())
-			} else {
+			}
+			if !ok || n < 0 {
 				slip.TypePanic(s, depth, "n", args[1], "non-negative integer")
 			}
 		}
